@@ -2,7 +2,10 @@ import RoaringModel.Driver.Core
 import RoaringModel.IO
 import RoaringModel.SerOps
 import RoaringModel.SpecCodec
-/-! Driver handlers: family `Codec` (C05, C06, C13, C14, C18) -/
+import RoaringModel.SafeCodec
+/-! Driver handlers: family `Codec` (C05, C06, C13, C14, C18).
+    Every decoder op evaluates the decidable arithmetic side condition of `SafeCodec.lean` on exactly the bytes (and the
+    reader) it decodes: `Safe_deserialize` (`deser*`), `Safe_interSer` (`inter_ser*`); see `safeMark` (Driver/Core.lean). -/
 namespace Roaring.Driver
 open Roaring
 
@@ -62,6 +65,75 @@ def finishDeser (st : DState) (i : Nat) (chk : Bool) (bytes : List Nat)
   | .error .panic => (st, match q with | some _ => "panic !SPEC(ok)" | none => "panic")
   | .error _ => (st, match q with | some _ => "err !SPEC(ok)" | none => "err")
 
+/-- GUARD of the run-time evaluation of `Safe_deserialize` / `Safe_interSer` (never part of a result): an estimate of the
+    work of the RUN REPLAY of this stream in the list model, obtained by walking the chunks with the decoder's own header
+    function and chunk sizes.  Per run chunk with `runs` runs whose lengths sum to `cap` (`Store::with_capacity(cap)`):
+    every `insert_range` rebuilds the store — `cap + runs` values in array mode, 1024 words in bitset mode — and an
+    array store that ends above 4096 values is converted word by word (`≈ 4·10^6` list steps).  The predicates re-execute
+    the replay (`Safe_replayRuns`) and decode each run chunk twice more (three times more for a treemap), so on such
+    streams the evaluation costs 3-4 decodes.  Array / bitset chunks cost `O(bytes)` and are not counted.
+    Returns the estimate and the unread rest. -/
+def runWorkGo (rb : Option (List Nat)) : List (Nat × Nat) → Nat → List Nat → Nat → Nat × List Nat
+  | [], _, bs, acc => (acc, bs)
+  | (_, cardM1) :: ds, i, bs, acc =>
+    if isRunAt rb i then
+      match bs with
+      | lo :: hi :: bs' =>
+        let runs := lo + 256 * hi
+        if bs'.length < runs * 4 then (acc, []) else
+        let cap := ((pairs (leWords 2 (bs'.take (runs * 4)))).map (·.2)).foldl (· + ·) 0
+        let w := runs * (if cap > ARRAY_LIMIT then 1024 else cap + runs)
+          + (if cap ≤ ARRAY_LIMIT ∧ ARRAY_LIMIT < cap + runs then 4000000 else 0)
+        runWorkGo rb ds (i + 1) (bs'.drop (runs * 4)) (acc + w)
+      | _ => (acc, [])
+    else if cardM1 + 1 ≤ ARRAY_LIMIT then runWorkGo rb ds (i + 1) (bs.drop (2 * (cardM1 + 1))) acc
+    else runWorkGo rb ds (i + 1) (bs.drop 8192) acc
+
+def runWork (bytes : List Nat) : Nat × List Nat :=
+  match decodeHeader readN bytes with
+  | .error _ => (0, [])
+  | .ok (h, rest) => runWorkGo h.runBitmap h.descr 0 rest 0
+
+/-- replay work up to which a stream is ALWAYS evaluated … -/
+def safeWorkAlways : Nat := 400000
+/-- … and up to which ONE IN FOUR streams is evaluated (`(length + work) % 4 = 0`: a fixed property of the stream, so a
+    run is reproducible); above it the decoder alone runs.  The band holds the streams whose run store crosses the
+    4096 limit and is converted. -/
+def safeWorkSampled : Nat := 12000000
+
+/-- the truncation families (`deser_trunc`, `deser_prefix`, `inter_ser_trunc`, and the treemap ones) decode MANY prefixes
+    of one stream; a proper prefix longer than this is not evaluated (the whole stream is, under the work guard) -/
+def safeMaxTruncBytes : Nat := 2048
+
+/-- `true` = do not evaluate -/
+def safeSkip (len work : Nat) (properPrefix : Bool) : Bool :=
+  (properPrefix && decide (len > safeMaxTruncBytes))
+  || decide (work > safeWorkSampled)
+  || (decide (work > safeWorkAlways) && (len + work) % 4 != 0)
+
+/-- the evaluations proper, as separate compiled functions so that the guards below stay lazy (a `Decidable` instance
+    is a strict value; next to `||` the compiler may evaluate it first) -/
+@[noinline] def evalSafeDeserialize {σ : Type} (R : Nat → Parser σ (List Nat)) (chk dbg : Bool) (s : σ) : Bool :=
+  decide (Safe_deserialize R chk dbg s)
+@[noinline] def evalSafeInterSer (dbg : Bool) (a : Bitmap) (bytes : List Nat) : Bool :=
+  decide (Safe_interSer dbg a bytes)
+
+/-- `decide (Safe_deserialize R chk dbg s)` under the work guard (`bytes`: the bytes behind the reader state `s`) -/
+@[noinline] def safeDeser {σ : Type} (name : String) (R : Nat → Parser σ (List Nat)) (chk dbg : Bool) (bytes : List Nat)
+    (s : σ) (properPrefix : Bool := false) : String :=
+  match safeSkip bytes.length (runWork bytes).1 properPrefix with
+  | true => ""
+  | false => safeMark name (evalSafeDeserialize R chk dbg s)
+
+@[noinline] def safeInterSer (name : String) (dbg : Bool) (a : Bitmap) (bytes : List Nat)
+    (properPrefix : Bool := false) : String :=
+  match safeSkip bytes.length (runWork bytes).1 properPrefix with
+  | true => ""
+  | false => safeMark name (evalSafeInterSer dbg a bytes)
+
+/-- append a `!SAFE` marker to the output line of a finished op -/
+@[inline] def withSafe (r : DState × String) (mark : String) : DState × String := (r.1, r.2 ++ mark)
+
 def opsCodec : Handler := fun st toks =>
   let b? (t : String) := (parseSlot 'b' t).bind fun i => (st.getB i).map fun s => (i, s)
   match toks with
@@ -99,26 +171,29 @@ def opsCodec : Handler := fun st toks =>
     let r := match deserialize chk st.dbg bytes with
       | .ok (m, rest) => Except.ok (m, rest.length)
       | .error e => .error e
-    pure (finishDeser st i chk bytes r)
+    pure (withSafe (finishDeser st i chk bytes r) (safeDeser "deser" readN chk st.dbg bytes bytes))
   | ["deser_trunc", mode, d, k, h] => do
     let chk ← parseMode mode; let i ← parseSlot 'b' d; let k ← parseU64 k; let full ← parseHex h
     let bytes := full.take k
     let r := match deserialize chk st.dbg bytes with
       | .ok (m, rest) => Except.ok (m, rest.length)
       | .error e => .error e
+    let safe := safeDeser "deser_trunc" readN chk st.dbg bytes bytes (decide (k < full.length))
     -- a strict prefix of a conformant stream must be an error (C14)
     match Spec.decode full, r with
     | some (_, srest), .ok (m, rest) =>
       if k < full.length - srest.length then
-        pure (st.setB i ⟨m, Bitmap.elems m⟩, specMark (showDeser chk m rest) "err")
-      else pure (finishDeser st i chk bytes r)
-    | _, _ => pure (finishDeser st i chk bytes r)
+        pure (st.setB i ⟨m, Bitmap.elems m⟩, specMark (showDeser chk m rest) "err" ++ safe)
+      else pure (withSafe (finishDeser st i chk bytes r) safe)
+    | _, _ => pure (withSafe (finishDeser st i chk bytes r) safe)
   | ["deser_sched", mode, d, sc, h] => do
     let chk ← parseMode mode; let i ← parseSlot 'b' d; let cyc ← parseSched sc; let bytes ← parseHex h
-    let r := match deserializeSched chk st.dbg bytes (expandSched cyc (bytes.length + 2)) with
+    let sched := expandSched cyc (bytes.length + 2)
+    let r := match deserializeSched chk st.dbg bytes sched with
       | .ok (m, rd) => Except.ok (m, rd.data.length)
       | .error e => .error e
-    pure (finishDeser st i chk bytes r)
+    pure (withSafe (finishDeser st i chk bytes r)
+      (safeDeser "deser_sched" SReader.readExact chk st.dbg bytes ⟨bytes, sched⟩))
   | ["deser_prefix", mode, d, s, k] => do
     let chk ← parseMode mode; let i ← parseSlot 'b' d; let (_, sl) ← b? s; let k ← parseU64 k
     let total := (Spec.encode sl.s).length
@@ -127,12 +202,13 @@ def opsCodec : Handler := fun st toks =>
     | none => pure (st, specMark "panic" specOut)
     | some all =>
     let bytes := all.take k
+    let safe := safeDeser "deser_prefix" readN chk st.dbg bytes bytes (decide (k < all.length))
     match deserialize chk st.dbg bytes with
     | .ok (m, rest) =>
       pure (st.setB i ⟨m, if k < total then Bitmap.elems m else sl.s⟩,
-            specMark s!"ok rest={rest.length} eq={showBool (Bitmap.eq m sl.m)}" specOut)
-    | .error .panic => pure (st, specMark "panic" specOut)
-    | .error _ => pure (st, specMark "err" specOut)
+            specMark s!"ok rest={rest.length} eq={showBool (Bitmap.eq m sl.m)}" specOut ++ safe)
+    | .error .panic => pure (st, specMark "panic" specOut ++ safe)
+    | .error _ => pure (st, specMark "err" specOut ++ safe)
   | ["ser_fail", d, lim, mode, sc] => do
     let (_, sl) ← b? d
     let k ← (parseKV "limit" lim).bind parseU64
@@ -141,32 +217,35 @@ def opsCodec : Handler := fun st toks =>
     let total := Spec.encode sl.s
     let w : SWriter := { accRev := [], room := k, zeroMode := zero, sched := expandSched cyc (total.length + 2) }
     let show_ (ok : Bool) (bs : List Nat) := (if ok then "ok" else "err") ++ s!" n={bs.length} sh={hex64 (fnv bs)}"
+    let safe := safeMark "ser_fail" (decide (Bitmap.Safe_serialize sl.m))
     match Bitmap.serializeIntoM st.dbg sl.m w with
-    | some r => pure (st, specMark (show_ r.1 r.2.bytes) (show_ (decide (total.length ≤ k)) (total.take k)))
-    | none => pure (st, specMark "panic" (show_ (decide (total.length ≤ k)) (total.take k)))
+    | some r => pure (st, specMark (show_ r.1 r.2.bytes) (show_ (decide (total.length ≤ k)) (total.take k)) ++ safe)
+    | none => pure (st, specMark "panic" (show_ (decide (total.length ≤ k)) (total.take k)) ++ safe)
   | ["inter_ser", d, l, h] => do
     let i ← parseSlot 'b' d; let (_, sl) ← b? l
     let bytes ← parseHex h
     let q := Spec.decode bytes
+    let safe := safeInterSer "inter_ser" st.dbg sl.m bytes
     match Bitmap.interSer st.dbg sl.m bytes with
     | .ok m =>
       (match q with
-       | some (S, _) => pure (st.setB i ⟨m, Spec.sAnd sl.s S⟩, "ok")
-       | none => pure (st.setB i ⟨m, Bitmap.elems m⟩, "ok"))
-    | .error .panic => pure (st, match q with | some _ => "panic !SPEC(ok)" | none => "panic")
-    | .error _ => pure (st, match q with | some _ => "err !SPEC(ok)" | none => "err")
+       | some (S, _) => pure (st.setB i ⟨m, Spec.sAnd sl.s S⟩, "ok" ++ safe)
+       | none => pure (st.setB i ⟨m, Bitmap.elems m⟩, "ok" ++ safe))
+    | .error .panic => pure (st, (match q with | some _ => "panic !SPEC(ok)" | none => "panic") ++ safe)
+    | .error _ => pure (st, (match q with | some _ => "err !SPEC(ok)" | none => "err") ++ safe)
   | ["inter_ser_trunc", d, l, k, h] => do
     let i ← parseSlot 'b' d; let (_, sl) ← b? l; let k ← parseU64 k
     let bytes ← parseHex h
     let q := Spec.decode bytes
+    let safe := safeInterSer "inter_ser_trunc" st.dbg sl.m (bytes.take k) (decide (k < bytes.length))
     match Bitmap.interSer st.dbg sl.m (bytes.take k) with
     | .ok m =>
       -- an early end may go unnoticed only if the result is still the right set
       (match q with
-       | some (S, _) => pure (st.setB i ⟨m, Spec.sAnd sl.s S⟩, "ok")
-       | none => pure (st.setB i ⟨m, Bitmap.elems m⟩, "ok"))
-    | .error .panic => pure (st, "panic !SPEC(err)")
-    | .error _ => pure (st, "err")
+       | some (S, _) => pure (st.setB i ⟨m, Spec.sAnd sl.s S⟩, "ok" ++ safe)
+       | none => pure (st.setB i ⟨m, Bitmap.elems m⟩, "ok" ++ safe))
+    | .error .panic => pure (st, "panic !SPEC(err)" ++ safe)
+    | .error _ => pure (st, "err" ++ safe)
   | _ => none
 
 end Roaring.Driver
